@@ -7,6 +7,19 @@ import (
 	"time"
 )
 
+// contextCause returns why a context that is done was cancelled. With the Go
+// releases this module is built with, context.Cause() only looks for a standard
+// library context in the chain: for a context type of our own (primaryCtx)
+// whose parent has not been cancelled it reports the parent's cause, nil, and a
+// caller that returns that as its error reports success for a lock it never
+// got. Fall back to the context's own error.
+func contextCause(ctx context.Context) error {
+	if err := context.Cause(ctx); err != nil {
+		return err
+	}
+	return ctx.Err()
+}
+
 // RWMutexInterval is the time between reattempting lock acquisition.
 const RWMutexInterval = 10 * time.Microsecond
 
@@ -73,7 +86,7 @@ func (g *RWMutexGuard) Lock(ctx context.Context) error {
 	for {
 		select {
 		case <-ctx.Done():
-			return context.Cause(ctx)
+			return contextCause(ctx)
 		case <-ticker.C:
 			if g.TryLock() {
 				return nil
@@ -158,7 +171,7 @@ func (g *RWMutexGuard) RLock(ctx context.Context) error {
 	for {
 		select {
 		case <-ctx.Done():
-			return context.Cause(ctx)
+			return contextCause(ctx)
 		case <-ticker.C:
 			if g.TryRLock() {
 				return nil
